@@ -3,7 +3,7 @@
    arbitrary history `ops` of create/get/put/destroy/refcount/iterate calls with arbitrary
    (issued, stale, never-issued, no-check) handle values. *)
 From Coq Require Import ZArith List.
-Require Import Verif.gen.Consts_hdb Verif.HdbModel Verif.HdbProofs Verif.HdbProofs2 Verif.HdbIter.
+Require Import Verif.gen.Consts_hdb Verif.HdbModel Verif.HdbConvert Verif.HdbProofs Verif.HdbProofs2 Verif.HdbIter.
 Import ListNotations.
 Local Open Scope Z_scope.
 
@@ -94,6 +94,28 @@ Theorem C20_iteration_visits_exactly_undestroyed : forall ops,
   iterate (S (length (slots d))) (fst (step d IterReset)) = undestroyed d.
 Proof. exact iteration_complete_all_histories. Qed.
 Print Assumptions C20_iteration_visits_exactly_undestroyed.
+
+
+(* qb_hdb_base_convert / qb_hdb_nocheck_convert: the no-check form of a handle names the same slot and is
+   validated without comparing the check word, so it resolves to whatever object lives in that slot now -
+   which is why the stale-handle theorems above require check_of h <> NOCHECK. *)
+Theorem C20_nocheck_form_same_slot : forall c i, 0 <= i < two31 ->
+  idx_of (nocheck_convert (base_convert (mk_handle c i))) = idx_of (mk_handle c i) /\
+  check_of (nocheck_convert (base_convert (mk_handle c i))) = NOCHECK.
+Proof. exact nocheck_of_base_same_slot. Qed.
+Print Assumptions C20_nocheck_form_same_slot.
+
+Theorem C20_nocheck_form_resolves_current_object : forall d i s,
+  0 <= i < handle_count d -> i < two31 ->
+  nth_error (slots d) (Z.to_nat i) = Some s -> s_state s <> HDB_STATE_EMPTY ->
+  lookup d (nocheck_convert i) = Some (i, s).
+Proof. exact nocheck_lookup. Qed.
+Print Assumptions C20_nocheck_form_resolves_current_object.
+
+Example C20_ex_convert :
+  base_convert 0x0000003d00000007 = 7 /\ nocheck_convert 7 = 0xffffffff00000007 /\
+  nocheck_convert (two32 + 7) = 0xffffffff00000007.
+Proof. exact ex_convert. Qed.
 
 (* the repaired defect, kept as a refutation of the pre-fix validation (see known_findings.json) *)
 Theorem C20_unfixed_validation_refuted :
